@@ -1,5 +1,14 @@
 import sys
+import traceback
 import warnings
 warnings.filterwarnings("ignore", category=RuntimeWarning)
 from vf.runner import main
-sys.exit(main())
+try:
+    code = main()
+except SystemExit:
+    raise
+except BaseException:
+    traceback.print_exc()
+    print("HARNESS ERROR (uncaught exception in the runner)")
+    code = 2
+sys.exit(code)
